@@ -136,6 +136,48 @@ def correspondence(ctx):
             if out != expected[case]:
                 corr.spec_violations.append((case, out, f'VIOLATED:thread {t} of a 16-thread first-use race got a different result than the pure function of the arguments ({expected[case]})'))
         corr.count('thread_race_processes')
+    # (d) stress: 16 threads, each evaluating DIFFERENT inputs at the same moment in its own pseudo-random order (a racy cache
+    # keyed by a hash of the input or of a code point is poisoned only when distinct colliding keys are in flight together),
+    # then a sequential re-evaluation.  Inputs: one-character strings whose code points collide modulo every power of two
+    # from 2^4 to 2^12 while having different classifications / mappings, plus the static cases above.
+    pool = []
+    base_cps = [0x41, 0x61, 0xFB01, 0x1301, 0x4301, 0xC5, 0x212B, 0xFF21, 0x3000, 0xA0, 0x2163, 0x5D0, 0x661, 0x13A0, 0x1F88, 0x130, 0xB5, 0x2460, 0x378, 0xAD]
+    seen = set()
+    for c0 in base_cps:
+        for k in range(4, 13):
+            for mul in (1, 2, 3, 5):
+                c1 = c0 + mul * (1 << k)
+                for c in (c0, c1):
+                    if c < 0x110000 and not (0xD800 <= c <= 0xDFFF) and c not in seen:
+                        seen.add(c)
+                        pool.append([c])
+    pool = pool[:1500]
+    stress_cases = []
+    for s in pool:
+        for prof in ('um', 'up', 'op', 'nick'):
+            stress_cases.append(f'prof|{prof}|enforce|s|b|{hexs(s)}|')
+    exp = run_cases(stress_cases, ctx.work)
+    sf = os.path.join(work, 'stress.txt')
+    with open(sf, 'w') as f:
+        for case, impl_, model, verdict in exp:
+            f.write(f'{case}\t{model}\n')
+            if impl_ != model:
+                corr.disagreements.append((case, impl_, model))
+    rounds = 3 if ctx.tier == 'quick' else 40
+    ncalls = 0
+    for rnd in range(rounds):
+        r = subprocess.run([HARNESS, 'stress', '16', str(20000 if ctx.tier == 'quick' else 100000), sf], stdout=subprocess.PIPE, text=True, env=ENV)
+        if r.returncode != 0:
+            corr.spec_violations.append((f'stress run {rnd}', f'exit {r.returncode}', 'VIOLATED:process crashed under concurrent use'))
+            continue
+        for line in r.stdout.splitlines():
+            f_ = line.split('\t')
+            if f_[0] == 'mismatch':
+                corr.spec_violations.append((f_[3], f_[4], f'VIOLATED:{f_[1]} phase of a 16-thread run with different inputs in flight: thread {f_[2]} got a result that is not the pure function of the arguments'))
+            elif f_[0] == 'count':
+                ncalls += int(f_[1])
+    corr.evaluations += ncalls
+    corr.count('stress_calls', ncalls)
     corr.extra['schedules_explored'] = f'{nproc} fresh processes x {nthreads} threads x {len(static_cases)} static calls each, barrier start, per-thread rotation of the call order'
     corr.samples = [{'case': r[0], 'implementation': r[1], 'model': r[2]} for r in res[:6]]
     corr.rule = ('every input through all combinations of {fresh instance, long-lived instance, static fast-invocation API} x {&str, String, Cow::Borrowed, Cow::Owned} x {prepare, enforce, compare} x 4 profiles, three times in shuffled order (history), '
